@@ -869,6 +869,31 @@ fn generate_cases(rng: &mut Rng, thorough: bool, safe_depth: &BTreeMap<String, u
             cases.push(Case { class: "escape-classes".to_owned(), text, files: Vec::new(), configs });
         }
     }
+    // 13. interpolated-string value segments whose left spine (binary operators / type casts, 0-3 levels)
+    //     ends in a table, through every generator and span, with no rule and after remove_types is
+    //     skipped: `{` of the segment and `{` of the table must stay apart at every depth (seeded C12-m9)
+    {
+        let spines: &[&str] = &[
+            "{}", "{} + 1", "{} + 1 + 2", "{} + 1 + 2 + 3", "{} :: any", "{} :: any == nil", "{} :: any :: any",
+            "{} :: any .. 'a' .. 'b'", "{1} .. 'a' == nil and x", "{} == {} == {}", "({}) + 1 + 2", "({}).x + 1 + 2",
+        ];
+        let mut text = String::new();
+        for (i, spine) in spines.iter().enumerate() {
+            text.push_str(&format!("local v{} = `{{ {} }}`\nlocal w{} = `a{{ {} }}b{{ {} }}`\n", i, spine, i, spine, spine));
+        }
+        text.push_str("return v0\n");
+        let mut configs = Vec::new();
+        for generator in luagen::GENERATORS {
+            for span in luagen::SPANS {
+                configs.push(luagen::configuration(&[], generator, *span, false));
+            }
+        }
+        configs.extend(probe_configs());
+        cases.push(Case { class: "interp-table-spine".to_owned(), text: text.clone(), files: Vec::new(), configs: configs.clone() });
+        for spine in spines {
+            cases.push(Case { class: "interp-table-spine".to_owned(), text: format!("return `{{ {} }}`\n", spine), files: Vec::new(), configs: configs.clone() });
+        }
+    }
     // 9. batches with one bad member: errors are values naming the file, the rest is written
     for _ in 0..(25 * scale) {
         let good = luagen::Gen::program(rng, 5);
